@@ -99,7 +99,13 @@ fn evaluate_watched(scen: &Scenario, trace: bool) -> crate::eval::Eval {
     crate::sched::PROGRESS.fetch_add(1, Ordering::Relaxed);
     RUN_CPU_START_MS.store(process_cpu_ms(), Ordering::Relaxed);
     RUN_ACTIVE.store(true, Ordering::Relaxed);
-    let ev = evaluate(scen, trace);
+    static BUDGET: std::sync::OnceLock<usize> = std::sync::OnceLock::new();
+    let budget = *BUDGET.get_or_init(crate::alloc::budget);
+    crate::alloc::run_begin(budget);
+    let mut ev = evaluate(scen, trace);
+    let (peak, calls) = crate::alloc::run_end();
+    ev.peak_bytes = peak;
+    ev.alloc_calls = calls;
     RUN_ACTIVE.store(false, Ordering::Relaxed);
     ev
 }
@@ -167,6 +173,18 @@ pub struct Agg {
     pub slowest_run_ms: u64,
     #[serde(default)]
     pub slowest_run_index: u64,
+    /// largest peak of live heap bytes of a single run (above its starting level)
+    #[serde(default)]
+    pub mem_peak_max: u64,
+    #[serde(default)]
+    pub mem_peak_max_index: u64,
+    #[serde(default)]
+    pub mem_peak_total: u64,
+    /// runs by the power of two of their peak (MiB)
+    #[serde(default)]
+    pub mem_hist: BTreeMap<String, u64>,
+    #[serde(default)]
+    pub alloc_calls: u64,
     #[serde(default)]
     pub runs_with_variants: u64,
     #[serde(default)]
@@ -220,6 +238,15 @@ impl Agg {
         self.fault_free_runs += o.fault_free_runs;
         self.max_depth = self.max_depth.max(o.max_depth);
         self.doc_bytes += o.doc_bytes;
+        if o.mem_peak_max > self.mem_peak_max {
+            self.mem_peak_max = o.mem_peak_max;
+            self.mem_peak_max_index = o.mem_peak_max_index;
+        }
+        self.mem_peak_total += o.mem_peak_total;
+        self.alloc_calls += o.alloc_calls;
+        for (k, v) in o.mem_hist {
+            *self.mem_hist.entry(k).or_insert(0) += v;
+        }
         if o.slowest_run_ms > self.slowest_run_ms {
             self.slowest_run_ms = o.slowest_run_ms;
             self.slowest_run_index = o.slowest_run_index;
@@ -365,6 +392,17 @@ fn account(agg: &mut Agg, scen: &Scenario, index: u64, ev: &crate::eval::Eval) {
         agg.runs_repeat_checked += 1;
     }
     agg.takeovers += res.log.takeovers;
+    if ev.peak_bytes > agg.mem_peak_max {
+        agg.mem_peak_max = ev.peak_bytes;
+        agg.mem_peak_max_index = index;
+    }
+    agg.mem_peak_total += ev.peak_bytes;
+    agg.alloc_calls += ev.alloc_calls;
+    {
+        let mib = ev.peak_bytes >> 20;
+        let k = if mib == 0 { "<1MiB".to_string() } else { format!("<{}MiB", (mib + 1).next_power_of_two()) };
+        bump(&mut agg.mem_hist, &k);
+    }
     if agg.samples.len() < 2 && nt {
         agg.samples.push(sample_of(scen, index, ev));
     }
@@ -391,8 +429,8 @@ fn set_limits() {
     // instead of taking the sandbox down.
     unsafe {
         let lim = libc::rlimit {
-            rlim_cur: 6 << 30,
-            rlim_max: 6 << 30,
+            rlim_cur: 8 << 30,
+            rlim_max: 8 << 30,
         };
         libc::setrlimit(libc::RLIMIT_AS, &lim);
         let core = libc::rlimit {
@@ -876,7 +914,12 @@ pub fn classify_death(status_desc: &str, errtail: &str) -> (&'static str, String
             .rev()
             .find(|l| l.contains("memory allocation of"))
             .unwrap_or("");
-        ("oom", format!("{}: {} (address-space limit reached)", status_desc, line.trim()))
+        let budget = errtail.lines().rev().find(|l| l.contains("MEMORY-BUDGET")).unwrap_or("");
+        if budget.is_empty() {
+            ("oom", format!("{}: {} (address-space limit reached)", status_desc, line.trim()))
+        } else {
+            ("oom", format!("{}: {} ({})", status_desc, line.trim(), budget.trim().trim_start_matches("h2tsim: ")))
+        }
     } else if errtail.contains("capacity overflow") {
         ("capacity_overflow", format!("{}: capacity overflow", status_desc))
     } else {
@@ -1473,6 +1516,13 @@ fn write_evidence(
             "slowest_run_wall_ms": agg.slowest_run_ms,
             "slowest_run_index": agg.slowest_run_index,
             "stall_backstop_s": STALL_SECS,
+            "memory_budget_bytes_per_run": crate::alloc::DEFAULT_BUDGET,
+            "memory_peak_max_bytes": agg.mem_peak_max,
+            "memory_peak_max_run_index": agg.mem_peak_max_index,
+            "memory_peak_mean_bytes": if agg.runs > 0 { agg.mem_peak_total / agg.runs } else { 0 },
+            "memory_budget_headroom_factor": if agg.mem_peak_max > 0 { crate::alloc::DEFAULT_BUDGET as u64 / agg.mem_peak_max } else { 0 },
+            "memory_peak_histogram": agg.mem_hist,
+            "allocator_calls_counted": agg.alloc_calls,
             "runs_with_a_second_document_or_configuration": agg.runs_with_variants,
             "runs_executed_twice_for_repeat_check": agg.runs_repeat_checked,
             "runs_judged_against_references_from_a_fresh_process": agg.runs_fresh_reference,
@@ -1482,14 +1532,14 @@ fn write_evidence(
             "known_findings_hit": known_hits,
             "components": {
                 "real": ["html2text (all of it, built from /repo's working tree with --cfg html2text_verif, overflow checks and debug assertions on)", "html5ever", "markup5ever", "tendril", "string_cache", "nom", "unicode-width", "std threads and stacks"],
-                "simulated": ["reader / transport (SimReader)", "caller-thread scheduler (baton)", "step clock (tick hook)"],
+                "simulated": ["reader / transport (SimReader)", "caller-thread scheduler (baton)", "step clock (tick hook)", "allocator budget (counting global allocator around the system allocator)"],
                 "absent": ["wall clock", "disk", "network"]
             }
         },
         "assumptions": [
             "seeded sampling: a clean batch is evidence, not proof",
             "std::collections RandomState keys are not controlled by the simulator (sampled: repeated ops and fresh threads); html2text does not iterate over hash containers",
-            "allocation failure is not injected (Rust aborts on OOM by design); workers run under RLIMIT_AS only as a safety net",
+            "allocation failure is not injected at arbitrary points (Rust aborts on OOM by design); every run has a budget of live heap bytes counted by the simulator's allocator, beyond which allocation fails and the abort is attributed to the run; RLIMIT_AS remains as a safety net",
             "the stall backstop (no scheduler event and no step for 240 s, or 240 s of processor time used by one run; judged by a watchdog inside the executing process, independent of machine load) only covers loops that contain no tick site, deadlocks and runs that are too slow per step"
         ],
         "wall_s": wall,
@@ -1594,6 +1644,34 @@ pub fn cmd_local(args: &[String]) -> i32 {
         agg.discarded
     );
     0
+}
+
+/// Calibration aid (not a check): peak live bytes of each run against the
+/// size of its input and of what it rendered.
+pub fn debug_mem(prop: &str, seed: u64, from: u64, to: u64, quick: bool, min_mib: u64) {
+    set_limits();
+    for idx in from..to {
+        let scen = generate(prop, seed, idx, quick);
+        let ev = evaluate_watched(&scen, false);
+        if ev.peak_bytes >> 20 >= min_mib {
+            let doc = scen.doc.materialise().len();
+            let out: usize = ev.res.records.iter().map(|r| r.text_len).sum();
+            let widths: Vec<String> = ev.res.records.iter().filter_map(|r| r.width).map(|w| w.to_string()).collect();
+            println!(
+                "run {} class={} peak={} doc={} out={} ratio={:.1} depth={} deco={} widths={} ticks={}",
+                idx,
+                scen.class,
+                ev.peak_bytes,
+                doc,
+                out,
+                ev.peak_bytes as f64 / (doc + out + 1) as f64,
+                scen.doc.depth(),
+                deco_name(&scen.config.decorator),
+                widths.join(","),
+                ev.res.ticks_total
+            );
+        }
+    }
 }
 
 pub fn cmd_minimize(args: &[String]) -> i32 {
